@@ -303,7 +303,16 @@ class Schema(ResolverMap):
                 (
                     getattr(type_, "default_resolver", None),
                     tuple(
-                        (f.resolver, f.subscription_resolver)
+                        (
+                            f.resolver,
+                            f.subscription_resolver,
+                            # Compatibility is a relation between a resolver
+                            # AND the arguments of its field.
+                            tuple(
+                                (a, a.python_name, a.has_default_value, a.type)
+                                for a in f.arguments
+                            ),
+                        )
                         for f in type_.fields
                     ),
                 )
